@@ -47,6 +47,35 @@ theorem order_needs_matching_null_ordering :
         [.null] [.int 1]
       ≠ cmpKey (specSem .small (col 0) ⟨none, none⟩) [.null] [.int 1] := by decide
 
+/-- **The generator's NULLS decision does not depend on what kind of expression the key is** (column, comparison,
+    LIKE, IN, BETWEEN, arithmetic, CASE, function, IS NULL, NOT …).  Model statement; the harness enumerates the key
+    kind against the real `ordered_sql` (top level and window specs), so a step that clears the clause for
+    "predicate" keys shows up as a correspondence failure, and `order_preserved` (which quantifies over EVERY key
+    function `Row → Val`) is the reason the kind must not matter. -/
+theorem genOrdered_independent_of_key (k1 k2 : KeyKind) (no : NullOrdering) (sup : Option Bool) (o : Ordered) :
+    genOrderedFor k1 no sup o = genOrderedFor k2 no sup o := rfl
+
+/-- NECESSITY: a comparison key over a nullable operand IS nullable.  Key `a > 1`, SQLite source `ORDER BY a > 1`
+    (NULL keys first), DuckDB target: without the NULLS FIRST clause a NULL-key row and a FALSE-key row compare the
+    other way round -/
+theorem order_predicate_key_needs_nulls_clause :
+    cmpKeys ([(⟨.expr, none, none⟩ : OutKey)].map (keySem .last (fun r => b3Val (gt3 (col 0 r) (.int 1)))))
+        [.null] [.int 0]
+      ≠ cmpKey (specSem .small (fun r => b3Val (gt3 (col 0 r) (.int 1))) ⟨none, none⟩) [.null] [.int 0] ∧
+    cmpKeys ((genOrderedFor .comparison .last (some true) (parseOrdered .small ⟨none, none⟩)).map
+          (keySem .last (fun r => b3Val (gt3 (col 0 r) (.int 1))))) [.null] [.int 0]
+      = cmpKey (specSem .small (fun r => b3Val (gt3 (col 0 r) (.int 1))) ⟨none, none⟩) [.null] [.int 0] := by decide
+
+/-- TABLE FACT (decided completely against the token sets read from the live classes): SQLiteParser.ARITHMETIC_TOKENS
+    contains every operator of the BITWISE, TERM and FACTOR tiers (all bind looser than `||` in SQLite and tighter
+    or equal elsewhere), so a `||` chain next to any of them is captured as a Paren — on both sides -/
+theorem dpipe_paren_tokens_complete :
+    (∀ t ∈ tierBitwise ++ tierTerm ++ tierFactor, t ≠ "COLLATE" → t ∈ sqliteArithmeticTokens) ∧
+    (∀ t ∈ ["AMP", "PIPE", "PLUS", "DASH", "STAR", "SLASH", "MOD"],
+        dpipeNeedsParen sqliteArithmeticTokens (some t) none true = true ∧
+        dpipeNeedsParen sqliteArithmeticTokens none (some t) true = true) ∧
+    factorOperandShapeOk = true := by decide
+
 /-- the CASE-WHEN-IS-NULL simulation branch is exercised by the general theorem (target without NULLS support) -/
 example : genOrdered .small none (parseOrdered .last ⟨some true, some true⟩)
     = [⟨.isNullFlag, some true, none⟩, ⟨.expr, some true, none⟩] := by decide
